@@ -105,11 +105,12 @@ def rule_one_based_bound(ck, repo, R):
     n = 0
     for r in ast.walk(f.node):
         if isinstance(r, ast.Raise) and r.exc is not None and 'invalid atoms number' in src(r.exc):
-            conds = [c for c in reach_conditions(r, f.node) if 'len(atoms)' in src(c) or any(isinstance(x, ast.Name) and x.id in ('atom', 'number') for x in ast.walk(c))]
+            counts = {a.targets[0].id for a in ast.walk(f.node) if isinstance(a, ast.Assign) and isinstance(a.targets[0], ast.Name) and src(a.value) == 'len(atoms)'}
+            conds = [c for c in reach_conditions(r, f.node) if 'len(atoms)' in src(c) or any(isinstance(x, ast.Name) and (x.id in ('atom', 'number') or x.id in counts) for x in ast.walk(c))]
             conds = [c for c in conds if 'startswith' not in src(c)]
             if not conds:
                 continue
-            names = {x.id for c in conds for x in ast.walk(c) if isinstance(x, ast.Name)} - {'atoms', 'len'}
+            names = {x.id for c in conds for x in ast.walk(c) if isinstance(x, ast.Name)} - {'atoms', 'len'} - counts
             if len(names) != 1:
                 continue
             v = names.pop()
@@ -117,7 +118,7 @@ def rule_one_based_bound(ck, repo, R):
             got = {}
             for k in range(-1, 6):
                 try:
-                    got[k] = all(bool(_ev(c, {v: k, 'atoms': [0, 0, 0]})) for c in conds)
+                    got[k] = all(bool(_ev(c, dict({v: k, 'atoms': [0, 0, 0]}, **{x: 3 for x in counts}))) for c in conds)
                 except _Unknown as e:
                     raise AnalysisError(f'parse_mol_v2000: range test not evaluable ({e})')
             want = {k: not (1 <= k <= 3) for k in range(-1, 6)}
@@ -155,6 +156,11 @@ def rule_fragment_index_bound(ck, repo, R):
     f = repo.func(f'{DSMI}:smiles')
     ck.require(f is not None, 'daylight smiles() not found')
     tests = [n for n in ast.walk(f.node) if isinstance(n, ast.Compare) and isinstance(n.left, ast.Call) and src(n.left.func) == 'max' and 'contract' in src(n.left)]
+    # the element-wise spelling: any(x >= count for group in contract for x in group)
+    for n in ast.walk(f.node):
+        if isinstance(n, ast.Call) and src(n.func) == 'any' and n.args and isinstance(n.args[0], ast.GeneratorExp) and 'contract' in src(n.args[0].generators[0].iter) \
+                and isinstance(n.args[0].elt, ast.Compare) and isinstance(n.args[0].elt.left, ast.Name):
+            tests.append(n.args[0].elt)
     ck.require(len(tests) >= 1, 'smiles(): range test of the fragment block not recognised')
     for t in tests:
         names = [x.id for x in ast.walk(t.comparators[0]) if isinstance(x, ast.Name)]
